@@ -33,5 +33,42 @@ CLAIMS["C01"] = {
     "note": "Trusted: the hand-written specification (adopts the code's reading where the property text is silent, listed in the file); the model; chrono tie by the chr.* suite; harness/driver. Six genuine defects were repaired in /repo (D10/D19, D11, D12, D18 and the hint defects) and one is an open known finding (D20-dated-window, decidable class on the rule). Out of scope by definition: dated ranges from a yearless date to a date with a year (no documented meaning).",
     "technique": "Lean 4 executable specification + theorems on a hand-written model, property predicate evaluated on the implementation's output, differential correspondence",
 }
+_LB = 'Layer B (EnvOK for the real day level: daily schedules tile the day — available from C14 — and next_change_hint never jumps over a day whose schedule differs) is proved only for the empty expression so far; for other expressions the theorems are `…_partial` under that hypothesis, which the run-time oracle and the correspondence (model = implementation on every generated operation, model mirrors the hint code) stand in for. '
+CLAIMS["C02"] = {
+    "text": "Layer A is a complete Lean proof (OH/Props/C02A.lean): for ANY day level meeting EnvOK, iter_range terminates without panic and returns THE list of maximal constant runs of the pointwise state over [min from END, min to END) — tiling, kind at every sub-minute instant, adjacent kinds differ, no change skipped, uniqueness — by fun_induction over consume_until_next_kind/next/collect with well-founded termination. " + _LB + "The same clauses are evaluated on the implementation's stream at run time.",
+    "design_ref": "§5 C02",
+    "note": "Trusted: Lean kernel + standard axioms; hand-written model OH/Model/{Eval,Iter}.lean tied by correspondence; harness/driver. Former defects D7, D8, D9 (hint/is_constant) repaired in /repo. Open finding D16 (empty interval from a local span inside a DST gap, zone contexts only).",
+    "technique": "Lean 4 theorems (fun_induction, invariants, uniqueness of runs) over an abstract day level + run-time oracle on the implementation's stream + differential correspondence",
+}
+CLAIMS["C03"] = {
+    "text": "From Layer A (complete Lean proof for any day level meeting EnvOK): state(t) is the pointwise state for every bound; next_change is the exact next change (semantic definition IsNextChange, proved unique): some c => t < c < 10000-01-01, constant on [t, c), different at c; none <=> constant until 10000-01-01; identical inside one interval. " + _LB + "Oracle on the implementation: state vs the day's schedule, the three predicates, the next_change clauses by day scan, pairs of instants in one interval.",
+    "design_ref": "§5 C03",
+    "note": "Trusted as for C02. The former defect 'state closed during the minute before clocks are set back' (zone contexts) is repaired in /repo.",
+    "technique": "Lean 4 corollaries of the iterator theorems + run-time oracle + correspondence",
+}
+CLAIMS["C08"] = {
+    "text": "Proved without any hypothesis on the day level or the bound: no interval starts before the requested start or ends after min(requested end, 10000-01-01T00:00); next_change never returns an instant at or beyond 10000-01-01; the schedule of every day outside 1900-01-01..9999-12-31 is empty and state is closed from 10000-01-01 on. The clause 'from before 1900 next_change is the first non-closed instant from 1900-01-01 on' follows from C03 under the Layer B hypothesis and is checked by the oracle.",
+    "design_ref": "§5 C08",
+    "note": "Trusted as for C02.",
+    "technique": "Lean 4 theorems (unconditional window lemmas) + run-time oracle around both bounds + correspondence",
+}
+CLAIMS["C16"] = {
+    "text": "From Layer A, for EVERY bound B (negative and saturating ones included) and any day level meeting EnvOK: state is unchanged; next_change returns the exact answer or none, exact whenever the exact change lies at most B-24h after the instant, none whenever it lies more than B after it, none when the exact answer is none; negative bounds always answer none. " + _LB + "Oracle: exact (windowed) vs bounded answers with bounds placed around both thresholds.",
+    "design_ref": "§5 C16",
+    "note": "Trusted as for C02. The former defects (bound < -1 day: endless stream; bound near TimeDelta::MAX: panic) are repaired in /repo; only the first item of a bounded stream is in scope, as the property says.",
+    "technique": "Lean 4 corollaries of the iterator theorems with both bound tests + run-time oracle + correspondence",
+}
+CLAIMS["C17"] = {
+    "text": "Proved: every interval, in particular the first, carries the comments of the schedule period in force at its first instant (Layer A, any day level meeting EnvOK); comment lists of from_ranges/addition/iter results are well-formed and drawn from the inputs and an untouched range keeps exactly its comments (C14); union keeps sorted-unique (C20); outside the supported range the day has one closed range without comments. The expression-level clauses (provenance from a rule applying on d or d-1, single-rule exactness) are evaluated on the implementation's output with the specification's `applies`; they are not yet theorems.",
+    "design_ref": "§5 C17",
+    "note": "Trusted as for C02 and C14. Observation (not a violation of C17 as stated): Schedule::insert hands the comments of an overwritten range to the overwriting one.",
+    "technique": "Lean 4 theorems (iterator + schedule comment lemmas) + run-time oracle on comments + correspondence incl. comments",
+}
+CLAIMS["C04"] = {
+    "text": "Evaluation part. The model returns Except with one error per Rust panic site, so 'no panic' is a statement about the model; proved: the time-domain iterator is total and panic-free for any day level meeting EnvOK and EVERY interval-size bound (well-founded termination of consume, the progress check of collect never fires), the schedule iterator's assert is unreachable on API-built schedules, easter / count_days_in_month / time-span resolution / saturating offsets are total. " + _LB + "Every evaluator entry point runs under catch_unwind on extreme expressions, instants (chrono MIN/MAX, both range bounds) and bounds; any panic or endless stream is a violation. Parser part: see notes (checked by the parser suite; D1 open until repaired).",
+    "design_ref": "§5 C04",
+    "note": "Repaired in /repo: D2 (offset overflow), D3 (time span resolution), D4 (u16 overflow), D5 (state at MAX), D22 (bound range). Cannot exhibit: stack exhaustion (recursive union/addition), allocation failure, panics inside dependencies (tz lookup, solar computation) other than by running them. Not yet proved: absence of .error in scheduleAt/nextChangeHint under ParserWF (remaining sites: zero step, nth index — excluded by the parser).",
+    "technique": "Lean 4 totality theorems on a model with explicit panic outcomes + catch_unwind harness on extremes + correspondence",
+}
 ALL = [f"C{i:02d}" for i in range(1, 21)]
 NOT_APPLICABLE = {p: PENDING for p in ALL if p not in CLAIMS}
